@@ -46,7 +46,8 @@ DoAuthorizePending(st, o) ==
   IF st.cert[o.k] = "pending" /\ ~st.rec[o.k] THEN Out("ok", [st EXCEPT !.rec[o.k] = TRUE]) ELSE Out("skip", st)
 \* any peer that is not the node's own server: foreign roots, a certificate minted for another nonce, no nonce,
 \* wrong extended key usage, self-signed, with or without mimicking the library's ALPN
-RogueKinds == {"foreign", "staleNonce", "noNonce", "wrongEku", "selfSigned", "foreignNoAlpn", "foreignExtraAlpn", "nextRootNotYetValid"}
+RogueKinds == {"foreign", "staleNonce", "noNonce", "wrongEku", "selfSigned", "foreignNoAlpn", "foreignExtraAlpn", "nextRootNotYetValid",
+               "staleNonceExtraCert"}   \* genuine certificate for another nonce + an extra throw-away certificate carrying the fresh nonce
 DoRogue(st, o) == IF st.cert[o.k] \notin Issued THEN Out("skip", st) ELSE Out("error", st)
 \* real time passes until the next root has become valid as well
 DoWaitOverlap(st) == IF st.phase = "early" THEN Out("ok", [st EXCEPT !.phase = "overlap"]) ELSE Out("skip", st)
